@@ -928,6 +928,12 @@ def diff_helper(func, arr, *args, **kwargs):
 
 @implements(np.diff)
 def diff(a, *args, **kwargs):
+    # prepend / append are joined to a before differencing: same units as a
+    u = getattr(a, "units", NULL_UNIT)
+    args = args[:2] + tuple(_values_in_units(v, u) for v in args[2:])
+    for key in ("prepend", "append"):
+        if key in kwargs:
+            kwargs[key] = _values_in_units(kwargs[key], u)
     return diff_helper(np.diff, a, *args, **kwargs)
 
 
